@@ -237,11 +237,13 @@ def MTs.length : MTs → Nat
   | .nil => 0
   | .cons _ t => t.length + 1
 
+/-- the `for i := start; i < numDocs; i++ { if predicate(i) { return i } }` loop, scanning the table from index `i` -/
+def firstSetAux : List Bool → Nat → Nat → Nat
+  | [], _, _ => maxU32
+  | b :: rest, i, start => if start ≤ i ∧ b = true then i else firstSetAux rest (i + 1) start
+
 /-- first index `≥ start` whose bit is set (`docMatchTree.nextDoc`, `branchQueryMatchTree.nextDoc`), else the sentinel -/
-def firstSet (bits : List Bool) (start : Nat) : Nat :=
-  match (List.range bits.length).find? (fun i => decide (start ≤ i) && bits.getD i false) with
-  | some i => i
-  | Option.none => maxU32
+def firstSet (bits : List Bool) (start : Nat) : Nat := firstSetAux bits 0 start
 
 /-! ### nextDoc -/
 mutual
